@@ -585,10 +585,14 @@ def corpus_numbers():
 def exhaustive_small(quick):
     """Every pair of parameter sets over small value boxes, all in one history per box (and its reverse)."""
     gs = []
-    strs = ["", "x", "y", "z", "x b=y", "y b=z", "None", " ", "=", "b=", "x b="] if quick else ADV_STR
+    # (the Coq evaluation of one history grows faster than quadratically with its length: 18 x 18 values take about a
+    #  minute, the full 30 x 30 box of the first round never finished inside the coqc timeout)
+    boxes = [["", "x", "y", "z", "x b=y", "y b=z", "None", " ", "=", "b=", "x b="]] if quick else \
+        [ADV_STR[:18], ADV_STR[18:] + ADV_STR[:6]]
     u = [dict(name="G", fields=two_str_class())]
-    calls = [[0, [S(a), S(b)], "kw"] for a in strs for b in strs]
-    gs.append(dict(univ=u, table=[], hists=[calls, list(reversed(calls))], tag="box-str-str"))
+    for k, strs in enumerate(boxes):
+        calls = [[0, [S(a), S(b)], "kw"] for a in strs for b in strs]
+        gs.append(dict(univ=u, table=[], hists=[calls, list(reversed(calls))], tag="box-str-str" + ("" if k == 0 else f"-{k + 1}")))
     u = [dict(name="G", fields=[dict(name="a", dtype=["opt", ["str"]], default=["n"]), dict(name="b", dtype=["opt", ["int"]], default=["n"])])]
     vals_a = [["n"], S("None"), S(""), S("x"), S("x b=1"), S("x b=None")]
     vals_b = [["n"], I(0), I(1), I(-1), ["b", True]]
@@ -682,16 +686,19 @@ def c_obool(x):
     return "OTrue" if x else "OFalse"
 
 
-def run_values(run, seed, quick):
+def run_values(run, seed, quick, only=None):
     r = core.rng(seed, "C09", "values")
-    cases = gen_value_cases(r, 2500 if quick else 40000)
-    # plus every pair inside each class (equal) and one representative pair across classes (unequal)
-    for kind, cs in NUM_CLASSES.items():
-        for c in cs:
-            for a in c:
-                cases.append(dict(dtype=[kind], a=a, b=r.choice(c)))
-        for c1, c2 in itertools.combinations(cs, 2):
-            cases.append(dict(dtype=[kind], a=c1[0], b=c2[-1]))
+    if only is not None:
+        cases = [only]
+    else:
+        cases = gen_value_cases(r, 2500 if quick else 40000)
+        # plus every pair inside each class (equal) and one representative pair across classes (unequal)
+        for kind, cs in NUM_CLASSES.items():
+            for c in cs:
+                for a in c:
+                    cases.append(dict(dtype=[kind], a=a, b=r.choice(c)))
+            for c1, c2 in itertools.combinations(cs, 2):
+                cases.append(dict(dtype=[kind], a=c1[0], b=c2[-1]))
     cases = [c for c in cases if ascii_ok(json.dumps(c))]
     outs = core.run_worker_sharded("c09", cases, key="values", timeout=900)
     keep = [(c, o) for c, o in zip(cases, outs) if all(h[0] == "rej" or h[0] != "?" for h in o["held"])]
@@ -921,6 +928,9 @@ def run(run, tier, seed, replay=None):
         keep, res, _ = evaluate(run, "replay", [replay["group"]])
         run.stream("replay", len(keep), len(keep))
         report(run, "replay", res)
+        return
+    if replay is not None and "case" in replay:
+        run_values(run, seed, quick, only=replay["case"])
         return
     total_hist = 0
     cov = {t: 0 for t in TARGETS}
